@@ -216,6 +216,45 @@ fn run_stacks(a: &mut Allocator, fl: ClvmFlags, p: NodePtr, e: NodePtr, budget: 
     (run_program(a, &d, p, e, budget), None)
 }
 
+/// unrecorded probe: the error kind of a ChiaDialect run under `budget` ("" = success, "panic")
+fn probe_kind(prog: &Value, env: &Value, fl: u32, budget: u64) -> String {
+    let (p2, e2) = (prog.clone(), env.clone());
+    match catch(move || {
+        let mut a = Allocator::new();
+        let p = json_tree(&mut a, &p2).unwrap();
+        let e = json_tree(&mut a, &e2).unwrap();
+        let d = ChiaDialect::new(flags(fl));
+        match run_program(&mut a, &d, p, e, budget) {
+            Ok(_) => String::new(),
+            Err(e) => err_kind(&e).to_string(),
+        }
+    }) {
+        Ok(k) => k,
+        Err(_) => "panic".to_string(),
+    }
+}
+
+/// for a program that fails with something other than CostExceeded under an unlimited budget: the smallest budget
+/// under which it still fails that way (below it the run is stopped for cost first); None if there is none
+fn failure_threshold(prog: &Value, env: &Value, fl: u32) -> Option<u64> {
+    let k = probe_kind(prog, env, fl, 0);
+    if k.is_empty() || k == "CostExceeded" || k == "panic" {
+        return None;
+    }
+    let (mut lo, mut hi) = (1u64, 1u64 << 34); // lo: CostExceeded (or unknown), hi: fails with k
+    if probe_kind(prog, env, fl, hi) != k {
+        return None;
+    }
+    if probe_kind(prog, env, fl, lo) == k {
+        return Some(1);
+    }
+    while hi - lo > 1 {
+        let mid = lo + (hi - lo) / 2;
+        if probe_kind(prog, env, fl, mid) == k { hi = mid } else { lo = mid }
+    }
+    Some(hi)
+}
+
 // ---------------------------------------------------------------------------
 // one recorded run
 
@@ -482,6 +521,9 @@ fn run_one(out: &mut Out, case: u64, prog: &Value, env: &Value, cfg: &Cfg, line_
     end["rels"] = Value::Array(cfg.rels.iter().map(|(k, to)| json!({"k": k, "to": to})).collect());
     out.emit(&end);
     *line_no += 1;
+    // for the caller only (not part of the trace): where the guards of this run were entered and what they declared
+    end["guards_seen"] = Value::Array(events.borrow().iter().filter(|e| e["ev"] == json!("guard_enter"))
+        .map(|e| json!({"cost": le_n(&e["cost"]) as u64, "declared": le_n(&e["declared"]) as u64})).collect());
     end
 }
 
@@ -703,6 +745,36 @@ impl PG<'_> {
 
     /// programs aimed at the fast paths (C05): all-small add/sub at the u64/i64 edges, (sha256 1 n),
     /// small >, inline path lookups at bit 7/15/23, multiply with mixed representations
+    /// integer operators on SPELLINGS: the same small values written minimally and with redundant sign bytes, the units
+    /// 0 / 1 / -1 in every spelling, next to ordinary small integers (paths that special-case an operand's value or
+    /// representation must not change cost or result)
+    fn unit_expr(&mut self) -> Value {
+        let spell = |r: &mut Rng| -> Value {
+            match r.below(14) {
+                0 => atom_json(&[]),
+                1 => atom_json(&[0]),
+                2 => atom_json(&[0, 0]),
+                3 => atom_json(&[1]),
+                4 => atom_json(&[0, 1]),
+                5 => atom_json(&[0xff]),
+                6 => atom_json(&[0xff, 0xff]),
+                7 => { let v = r.below(128) as u8; atom_json(&[0, v]) }
+                8 => { let v = r.below(128) as u8; atom_json(&[0, 0, v]) }
+                9 => { let v = 0x80 | r.below(128) as u8; atom_json(&[0xff, v]) }
+                10 => atom_json(&[0xff, 0xff, 0xfe]),
+                11 => { let n = 1 + r.below(4) as usize; let mut b = r.bytes(n); b.insert(0, 0); b[1] &= 0x7f; atom_json(&b) }
+                _ => int_atom(r.range(-300, 300)),
+            }
+        };
+        let op = *self.r.pick(&[18u8, 18, 16, 17, 21, 21, 24, 25, 26, 19, 20, 61, 22, 23, 9, 10]);
+        let n = match op { 21 | 19 | 20 | 61 | 22 | 23 | 9 | 10 => 2, _ => 2 + self.r.below(4) as usize };
+        let mut items = vec![atom_json(&[op])];
+        for _ in 0..n {
+            items.push(q(spell(self.r)));
+        }
+        list_json(&items)
+    }
+
     fn fast_expr(&mut self, depth: u32) -> Value {
         let big = |r: &mut Rng| -> Value {
             // 26-bit values (inline) near the top, so sums overflow u64/i64 only with many terms; plus 8-byte edge values
@@ -1008,7 +1080,17 @@ impl PG<'_> {
 
     /// (softfork (q . cost) (q . ext) (q . prog) (q . env)); the declared cost is fixed up by the caller
     fn guard(&mut self, depth: u32) -> Value {
-        let inner = if self.r.chance(1, 3) && depth > 1 { self.guard(depth - 1) } else { self.expr(depth.min(2)) };
+        let inner = if self.r.chance(1, 3) && depth > 1 {
+            self.guard(depth - 1)
+        } else if self.crypto && self.r.chance(1, 6) {
+            // an operator whose meaning depends on the extension / on the flags: keccak256 (62) is an operator inside
+            // some guards and an unknown operator elsewhere
+            let n = self.r.below(40) as usize;
+            let k = list_json(&[atom_json(&[62]), q(atom_json(&self.r.bytes(n)))]);
+            if self.r.chance(1, 2) { k } else { list_json(&[atom_json(&[4]), k, q(self.value())]) }
+        } else {
+            self.expr(depth.min(2))
+        };
         let ext = match self.r.below(8) {
             0 => int_atom(2),
             1 => atom_json(&[0, 1]),
@@ -1065,6 +1147,7 @@ fn fix_guards(r: &mut Rng, prog: &Value, fl: u32) -> Value {
                 1 => c.saturating_add(guard_cost).saturating_sub(1),
                 2 => 0,
                 3 => u64::MAX >> r.below(20),
+                4 => c.saturating_add(guard_cost + 2 + r.below(60)),
                 _ => c.saturating_add(guard_cost),
             };
             let mut b = declared.to_be_bytes().to_vec();
@@ -1433,6 +1516,7 @@ fn main() {
                 let mut pg = PG { r: &mut r, newer: !classic_only, guards: true, crypto: !classic_only && profile != "C08x" && profile != "STK", unknown: true };
                 let depth = 1 + pg.r.below(4) as u32;
                 let p = match profile.as_str() {
+                    "C01" | "C02" | "C05" | "C11" | "C03" | "STK" if pg.r.chance(1, 6) => pg.unit_expr(),
                     "C05" if pg.r.chance(1, 8) => {
                         // the operand-size restrictions (LIMITS / DISABLE_OP, old cost model) on every build variant
                         if pg.r.chance(2, 3) { base_flags |= 0x0040; }
@@ -1470,6 +1554,7 @@ fn main() {
                         }
                         inner
                     }
+                    "C02" | "C07" if pg.r.chance(1, 6) => pg.guard(depth),
                     "C31" | "C08" => {
                         let g = pg.guard(depth);
                         if pg.r.chance(1, 2) { list_json(&[atom_json(&[4]), g, pg.expr(1)]) } else { g }
@@ -1525,6 +1610,21 @@ fn main() {
                 let mut budgets = vec![c, c.saturating_sub(1).max(1), c.saturating_add(1), c.saturating_mul(2).saturating_add(7), u64::MAX, 1];
                 for _ in 0..3 {
                     budgets.push(1 + r.below(c.saturating_add(3).min(u64::MAX - 2)));
+                }
+                if base["ok"] != json!(true) && r.chance(1, 2) {
+                    if let Some(t) = failure_threshold(&prog, &env, base_flags) {
+                        budgets.extend([t.saturating_sub(1).max(1), t, t.saturating_add(1)]);
+                    }
+                }
+                // a guard entered at cost E that declares D: every budget in E+1 ..= E+D+3 (a guard must not succeed under
+                // one budget and fail under a larger one, whatever it declares)
+                if let Some(g) = base["guards_seen"].as_array().and_then(|a| a.first()) {
+                    let (e0, d) = (g["cost"].as_u64().unwrap_or(0), g["declared"].as_u64().unwrap_or(0));
+                    if d <= 400 && r.chance(1, 2) {
+                        for m in e0 + 1..=e0 + d + 3 {
+                            budgets.push(m);
+                        }
+                    }
                 }
                 budgets.sort();
                 budgets.dedup();
@@ -1623,6 +1723,19 @@ fn main() {
                 let f = (base_flags & !(0x0020 | 0x0200)) | if r.chance(1, 3) { 0x0008 } else { 0 };
                 run_one(&mut out, case, &prog, &env, &Cfg::new("chia", "chia", f, 0), &mut line);
                 run_one(&mut out, case, &prog, &env, &Cfg::new("runtime", "runtime", f, 0).rel("eq_outcome_c30", "chia"), &mut line);
+                // budgets: for a successful run around its cost; for a failing run around the smallest budget under which
+                // it fails for its own reason rather than for cost (both dialects must report the same failure there)
+                let probe = probe_kind(&prog, &env, f, 0);
+                let around: Option<u64> = if probe.is_empty() {
+                    if r.chance(1, 3) { Some(1 + r.below(3000)) } else { None }
+                } else if r.chance(2, 3) { failure_threshold(&prog, &env, f) } else { None };
+                if let Some(t) = around {
+                    for (i, m) in [t.saturating_sub(1).max(1), t, t.saturating_add(1)].iter().enumerate() {
+                        let (cn, rn) = (format!("chia_b{i}"), format!("runtime_b{i}"));
+                        run_one(&mut out, case, &prog, &env, &Cfg::new(&cn, "chia", f, *m), &mut line);
+                        run_one(&mut out, case, &prog, &env, &Cfg::new(&rn, "runtime", f, *m).rel("eq_outcome_c30", &cn), &mut line);
+                    }
+                }
             }
             // C05: build variants (the same trace is recorded by each build and compared line by line)
             "C05" => {
